@@ -1186,4 +1186,82 @@ theorem glyphDeltasNew_ok (ax : Nat) (tents : List Tent) (ds : List GDelta) (t :
         · intro v hv; obtain ⟨x, hx, rfl⟩ := List.mem_map.mp hv; exact (ht x hx).2.2
       · cases hse
 
+/-! ### the whole table: `Gvar::new` -/
+
+theorem mem_insertByGid (x y : Nat × List TupleIn) : ∀ (l : List (Nat × List TupleIn)),
+    y ∈ insertByGid x l ↔ y = x ∨ y ∈ l := by
+  intro l
+  induction l with
+  | nil => simp [insertByGid]
+  | cons z zs ih =>
+    simp only [insertByGid]
+    split
+    · simp only [List.mem_cons, ih]
+      constructor
+      · rintro (h | h | h)
+        · exact Or.inr (Or.inl h)
+        · exact Or.inl h
+        · exact Or.inr (Or.inr h)
+      · rintro (h | h | h)
+        · exact Or.inr (Or.inl h)
+        · exact Or.inl h
+        · exact Or.inr (Or.inr h)
+    · simp only [List.mem_cons]
+
+theorem mem_sorted (glyphs : List (Nat × List TupleIn)) (y : Nat × List TupleIn) :
+    y ∈ glyphs.foldr insertByGid [] ↔ y ∈ glyphs := by
+  induction glyphs with
+  | nil => simp
+  | cons g gs ih => simp only [List.foldr_cons, mem_insertByGid, ih, List.mem_cons]
+
+/-- `GlyphVariations::build` + `write_into` → reader, on well-formed `GlyphDeltas` -/
+theorem writeGlyph_roundtrip (ax : Nat) (shared : List (List Int)) (hshared : shared.length ≤ 4096)
+    (ts : List TupleIn) (hne : ts ≠ []) (hok : ∀ t ∈ ts, TupleOk ax t)
+    (bytes : List Nat) (hw : writeGlyph shared ts = some bytes) (rest : List Nat) :
+    ∃ g, readGlyph ax (bytes ++ rest) = some g ∧
+      g.tuples.map (RawTuple.view shared g.sharedPts) = ts.map TupleIn.view := by
+  unfold writeGlyph at hw
+  cases hc : computeSharedPoints ts with
+  | none => simp [hc] at hw
+  | some sp =>
+    simp only [hc] at hw
+    refine writeGlyphWith_roundtrip ax shared (lookupIn shared)
+      (fun p i h => by obtain ⟨h1, h2⟩ := lookupIn_spec shared p i h; exact ⟨by omega, h2⟩)
+      sp ?_ ts hne hok bytes hw rest
+    intro q hq
+    subst hq
+    obtain ⟨t, ht, hb⟩ := computeSharedPoints_mem ts q hc
+    have tok := hok t ht
+    rw [← hb]
+    exact sharedOk_best _ _ tok.best tok.len
+
+theorem writeGlyph_empty (shared : List (List Int)) : writeGlyph shared [] = some [] := by
+  simp [writeGlyph, computeSharedPoints, countPackings, maxByFirstKey, writeGlyphWith]
+
+theorem writeGlyph_nonempty (shared : List (List Int)) (ts : List TupleIn) (hne : ts ≠ [])
+    (bytes : List Nat) (hw : writeGlyph shared ts = some bytes) : bytes ≠ [] := by
+  unfold writeGlyph at hw
+  cases hc : computeSharedPoints ts with
+  | none => simp [hc] at hw
+  | some sp =>
+    simp only [hc] at hw
+    unfold writeGlyphWith at hw
+    have hemp : ts.isEmpty = false := by cases ts <;> simp at hne ⊢
+    simp only [hemp, Bool.false_eq_true, if_false] at hw
+    cases hm : ts.mapM (fun t => buildTuple (lookupIn shared t.peak) sp t) with
+    | none => simp [hm] at hw
+    | some built =>
+      simp only [hm] at hw
+      unfold serializeGlyph at hw
+      split at hw
+      · cases hw
+      · split at hw
+        · simp only [] at hw
+          split at hw
+          · cases hw
+          · injection hw with hw
+            rw [← hw]
+            simp [be16]
+        · cases hw
+
 end FontVerif.GvarData
